@@ -251,6 +251,19 @@ func fixedRenew() []NScenario {
 		{Dir: true, Script: []Item{okItem(0, hr), {Kind: kWriteErr, A: 0, B: hr}, {Kind: kWriteErr, A: 0, B: hr}, okItem(0, hr)}, Steps: steps(30*mnt, 10*sec, 5*sec, 5*sec, 31*mnt)},
 		{Dir: true, Script: []Item{{Kind: kWriteErr, A: 0, B: hr}}, Steps: steps(hr)},
 		{Dir: false, Script: []Item{okItem(0, hr), {Kind: kWriteErr, A: 0, B: hr}}, Steps: steps(30*mnt, 30*mnt)},
+		// a fetch takes time: the issuer holds each request while the clock advances; GetX509SVID is called
+		// at every step (it must return the current SVID at once); answers arrive seconds … hours later
+		{Hold: true, Script: []Item{okItem(0, hr), okItem(0, hr), okItem(0, hr)},
+			Steps: []NStep{{Ans: true}, {D: 30 * mnt}, {D: 5 * sec}, {D: 20 * sec}, {Ans: true}, {D: 29 * mnt}, {D: 2 * mnt}, {D: hr}, {Ans: true}, {D: mnt}}},
+		// … a failure answered late: the retry is due 10 s after the ANSWER
+		{Hold: true, Dir: true, Script: []Item{okItem(0, hr), {Kind: kFail}, {Kind: kFail}, okItem(0, hr)},
+			Steps: []NStep{{Ans: true}, {D: 30 * mnt}, {D: 7 * sec}, {Ans: true}, {D: 9 * sec}, {D: sec}, {D: 3 * sec}, {Anch: 5}, {Ans: true}, {D: 10 * sec}, {Ans: true}, {D: mnt}}},
+		// … an answer that arrives after the new certificate's own half-life: renewed again at once
+		{Hold: true, Script: []Item{okItem(0, 2*mnt), okItem(-10*mnt, 2*mnt), okItem(0, hr)},
+			Steps: []NStep{{Ans: true}, {W: true}, {D: 3 * hr}, {Ans: true}, {D: sec}, {Ans: true}, {D: 29 * mnt}}},
+		// … the initial request is never answered / answered late
+		{Hold: true, Script: []Item{okItem(0, hr)}, Steps: []NStep{{D: sec}, {D: hr}, {D: 6 * hr}}},
+		{Hold: true, Dir: true, Script: []Item{okItem(0, hr), okItem(0, hr)}, Steps: []NStep{{D: 40 * mnt}, {Ans: true}, {D: sec}, {Ans: true}}},
 		// sub-second clock steps
 		{Script: []Item{okItem(0, 3*sec), okItem(0, 3*sec)}, Steps: steps(700*int64(time.Millisecond), 700*int64(time.Millisecond), 700*int64(time.Millisecond), 700*int64(time.Millisecond))},
 	}
@@ -346,8 +359,12 @@ func randomRenew(r *lib.Rand) NScenario {
 		sc.Steps = wakes(r.Range(5, 40))
 		return sc
 	}
+	sc.Hold = r.Intn(3) == 0 // a fetch takes time: answers only at explicit Ans steps
 	m := r.Range(3, 14)
 	for i := 0; i < m; i++ {
+		if sc.Hold && (i == 0 || r.Intn(3) == 0) {
+			sc.Steps = append(sc.Steps, NStep{Ans: true})
+		}
 		switch k := r.Intn(12); {
 		case k == 0:
 			sc.Steps = append(sc.Steps, NStep{Anch: r.Range(1, 9)})
